@@ -112,6 +112,17 @@ func (e *Exec) resolveTypeStr(env *cenv, s string) types.Type {
 func (e *Exec) typeFromExpr(pkg *types.Package, x ast.Expr) types.Type {
 	switch x := x.(type) {
 	case *ast.Ident:
+		// type parameters of the function (or receiver type) under verification
+		if len(e.frames) > 0 && e.frames[0].sig != nil {
+			sig := e.frames[0].sig
+			for _, tps := range []*types.TypeParamList{sig.RecvTypeParams(), sig.TypeParams()} {
+				for i := 0; tps != nil && i < tps.Len(); i++ {
+					if tps.At(i).Obj().Name() == x.Name {
+						return tps.At(i)
+					}
+				}
+			}
+		}
 		if obj := pkg.Scope().Lookup(x.Name); obj != nil {
 			if tn, ok := obj.(*types.TypeName); ok {
 				return tn.Type()
@@ -163,6 +174,14 @@ func (e *Exec) typeFromExpr(pkg *types.Package, x ast.Expr) types.Type {
 		return e.typeFromExpr(pkg, x.X)
 	case *ast.InterfaceType:
 		return types.NewInterfaceType(nil, nil)
+	case *ast.ChanType:
+		if t := e.typeFromExpr(pkg, x.Value); t != nil {
+			return types.NewChan(types.SendRecv, t)
+		}
+	case *ast.StructType:
+		if x.Fields == nil || len(x.Fields.List) == 0 {
+			return types.NewStruct(nil, nil)
+		}
 	}
 	return nil
 }
@@ -381,6 +400,34 @@ func (e *Exec) ccall(st *State, x *ast.CallExpr, env *cenv) Val {
 			return Val{T: Select(MapDom(e.mapValue(st, m, mt)), e.convertTo(st, k, mt.Key()).T), GT: boolT}
 		case "isnil":
 			return e.binop(st, token.EQL, arg(0), Val{T: nilTerm}, x.Pos())
+		case "isclosed":
+			// isclosed(ch): the channel has been closed (ghost set maintained by close())
+			ch := arg(0)
+			cl, ok := st.ghosts["closed"]
+			if !ok {
+				cl = Val{T: e.closed0()}
+			}
+			return Val{T: Select(cl.T, ch.T), GT: boolT}
+		case "allocated":
+			// allocated(r): the reference r exists already (it is below the allocation counter), so anything
+			// allocated later is different from it
+			r := arg(0)
+			cnt, ok := st.ghosts["alloc"]
+			if !ok {
+				cnt = Val{T: e.sc.Const("alloc0", SInt)}
+			}
+			return Val{T: And(Ge(r.T, IntLit(0)), Lt(r.T, cnt.T)), GT: boolT}
+		case "called":
+			// called("callee"): the named callee has been called on this path (ghost flag)
+			lit, ok := x.Args[0].(*ast.BasicLit)
+			if !ok {
+				e.fail(x.Pos(), "contract: called() needs a string literal")
+			}
+			name, _ := strconv.Unquote(lit.Value)
+			if g, ok := st.ghosts["called:"+name]; ok {
+				return Val{T: g.T, GT: boolT}
+			}
+			return Val{T: False, GT: boolT}
 		case "written":
 			// written(param): the backing array of slice parameter param was written in place
 			name := x.Args[0].(*ast.Ident).Name
